@@ -17,7 +17,7 @@ TMax(ty) == IF ty = "i8" THEN 127 ELSE 255
 Dom(ty)  == TMin(ty)..TMax(ty)
 
 Landmarks(ty) ==
-  IF Tier = "quick"
+  IF Tier \in {"quick", "c07"}
   THEN (IF ty = "i8" THEN {-128, -1, 5, 127} ELSE {0, 5, 255})
   ELSE (IF ty = "i8" THEN {-128, -127, -1, 0, 1, 5, 126, 127} ELSE {0, 1, 5, 100, 254, 255})
 
@@ -44,7 +44,7 @@ AllSans(ty) == {<<>>, <<Clamp(ty)>>, <<San("to_k", <<0, 5>>)>>, <<San("dbl_sat",
 FewSans(ty) == {<<>>, <<Clamp(ty)>>}
 
 \* default values: one certainly below / inside / above typical bounds
-Defaults(ty) == IF Tier = "quick" THEN {<<5>>} ELSE {<<5>>, <<TMax(ty)>>}
+Defaults(ty) == IF Tier \in {"quick", "c07"} THEN {<<5>>} ELSE {<<5>>, <<TMax(ty)>>}
 
 StdTraits == <<"Debug", "Clone", "Copy", "PartialEq", "Eq", "PartialOrd", "Ord", "Hash",
                "AsRef", "Deref", "Borrow", "Into", "Display", "FromStr", "Default",
@@ -61,7 +61,9 @@ CustomVals == {<<[k |-> "custom", b |-> 0, fn |-> "pos", p |-> <<>>, sp |-> "lit
 
 \* (rule set, sanitizer sequences) combinations explored
 Guards(ty) ==
-  IF Tier = "quick"
+  IF Tier = "c07"     \* C07 slice: every order of lower + upper + predicate, contradictory bounds included
+  THEN {<<S \cup {Pred1}, {<<>>}>> : S \in Pairs(ty)}
+  ELSE IF Tier = "quick"
   THEN {<<S, FewSans(ty)>> : S \in Pairs(ty)}
        \cup {<<S, AllSans(ty)>> : S \in Singles(ty) \cup {S \cup {Pred1} : S \in Singles(ty)} \cup {{Pred1}}}
   ELSE {<<S, AllSans(ty)>> : S \in Pairs(ty) \cup {S \cup {Pred1} : S \in Pairs(ty)}
